@@ -135,7 +135,7 @@ ADDENDA = {
  "C01": "; in-place-mutation (freshness) rule over presignature / configuration methods and all signing rounds; Lagrange consumption over the whole domain",
  "C02": "; whole-identifier rule on party.ID.Scalar; Lagrange rules on Config.PublicPoint; whole-table rule for in-place updates of caller-provided share tables; used-result rule over effect summaries",
  "C03": "; first-copy-wins rule on Accept/store; party-loop completeness rule (no sub-slices of participant lists); failure-is-reported rule on every error test (the return on the non-nil edge carries a non-nil error)",
- "C05": "; overflow-safety rule on allocation bounds (no narrow arithmetic on untrusted sizes); direct nil-comparison rule for pre-shaped sub-protocol messages; failure-is-reported rule; decoded-pointer nil rule on CBOR decoder call sites",
+ "C05": "; overflow-safety rule on allocation bounds (no narrow arithmetic on untrusted sizes); direct nil-comparison rule for pre-shaped sub-protocol messages; failure-is-reported rule; decoded-pointer nil rule on CBOR decoder call sites; untabled explicit panic sites decided by call-graph reachability from the uncontained roots (pool worker entry, decoder / CanAccept entry points)",
  "C06": "; first-copy-wins rule; no-early-accept rule on checkBroadcastHash",
  "C07": "; queue-key rule (messages filed under their own RoundNumber/From in both handlers); filter-first rule (every effect of Accept dominated by canAccept); queue-delete rule",
  "C09": "; order rule (nothing hashed after the ssid snapshot); total-writer and complete-writer rules; session-identifier content-forwarding rule at every NewSession call; used-result rule over interprocedural effect summaries (a discarded effect-free call is a missing write)",
